@@ -32,9 +32,9 @@ Frame(m, t, u) == LET inner == Inner(m, t) IN SubSeq(Blk(m, t).val, u * inner + 
 
 Fresh(o) == [d |-> D, dims |-> Dims, torus |-> Torus,
              order |-> [j \in 1..Len(o) |-> Sig[o[j]][1]],
-             blks |-> [j \in 1..Len(o) |->
+             blks |-> Eager([j \in 1..Len(o) |->
                 LET t == Sig[o[j]][1]  n == Chan(t) * ProdSeq(Dims) * Pow(D, t[1])
-                IN [lead |-> <<Chan(t)>>, val |-> [m \in 1..n |-> ((o[j] * 131 + m * 7919) % 23)]]]]
+                IN [lead |-> <<Chan(t)>>, val |-> Eager([m \in 1..n |-> ((o[j] * 131 + m * 7919) % 23)])]])]
 
 (* ---- the model family ---- *)
 SortedTypes(m) == SortTypes(TypeSet(m))
@@ -45,27 +45,27 @@ Model(m) ==
   LET dynTypes == SubSeqWhere(m.order, LAMBDA i : CDyn(m.order[i]) > 0)
       G == Global(m)
   IN [m EXCEPT !.order = dynTypes,
-        !.blks = [i \in 1..Len(dynTypes) |->
+        !.blks = Eager([i \in 1..Len(dynTypes) |->
            LET t == dynTypes[i]  inner == Inner(m, t) IN
            [lead |-> <<CDyn(t)>>,
-            val |-> [n \in 1..(CDyn(t) * inner) |->
+            val |-> Eager([n \in 1..(CDyn(t) * inner) |->
                LET c == (n - 1) \div inner  e == ((n - 1) % inner) + 1 IN
                (SumSeq([j \in 1..Past |-> (j + ModelId) * Frame(m, t, c * Past + j - 1)[e]])
                 + (5 + ModelId) * SumSeq([q \in 1..NConst(t) |-> q * Frame(m, t, CDyn(t) * Past + q - 1)[e]])
-                + G) % P97]]]]
+                + G) % P97])]])]
 
 (* ---- one rollout step on the window ---- *)
 Advance(m, pred) ==
-  [m EXCEPT !.blks = [i \in 1..Len(m.order) |->
+  [m EXCEPT !.blks = Eager([i \in 1..Len(m.order) |->
      LET t == m.order[i]  inner == Inner(m, t) IN
      IF CDyn(t) = 0 THEN m.blks[i]
      ELSE [lead |-> m.blks[i].lead,
-           val |-> [n \in 1..Len(m.blks[i].val) |->
+           val |-> Eager([n \in 1..Len(m.blks[i].val) |->
               LET u == (n - 1) \div inner  e == ((n - 1) % inner) + 1 IN
               IF u >= CDyn(t) * Past THEN m.blks[i].val[n]                                   \* constants: untouched, in place
               ELSE LET c == u \div Past  j == u % Past IN
                    IF j < Past - 1 THEN Frame(m, t, c * Past + j + 1)[e]                      \* shift: drop the oldest
-                   ELSE Frame(pred, t, c)[e]]]]]                                              \* newest = the prediction
+                   ELSE Frame(pred, t, c)[e]])]])]                                              \* newest = the prediction
 
 Init == \E o \in Orders : ord = o /\ init = Fresh(o) /\ window = Fresh(o) /\ outs = <<>> /\ wins = <<>>
 Step == /\ Len(outs) < NSteps
